@@ -28,7 +28,7 @@ type provCtx struct {
 	calls map[string]bool
 	// signCasts: render same-width conversions that change signedness (the value can change)
 	signCasts bool
-	seen  map[ssa.Value]bool
+	seen      map[ssa.Value]bool
 }
 
 func (c *provCtx) child(env map[*ssa.Parameter]string) *provCtx {
